@@ -353,6 +353,10 @@ func (gr *WordIterator) Next() bool {
 
 	if gr.inWord { // we are have reached the END of a word
 		gr.inWord = false
+		// another word may start right here (no separator, like between two ideographs)
+		if gr.pos < len(gr.src.text) {
+			gr.inWord = unicode.Is(ucd.Word, gr.src.text[gr.pos])
+		}
 		return true
 	}
 
